@@ -20,64 +20,74 @@ namespace AGH.Filter
 open AGH AGH.Bytes
 
 /-- The model satisfies the executable spec predicate the driver evaluates on
-the implementation — for all engines, configurations, upstream answers and queries. -/
+the implementation — for all engines, configurations (rewrite tables, hosts
+containers, safe-browsing / parental verdicts included), upstream answers and queries. -/
 theorem C01_model_meets_spec (e : Engines) (hwf : EnginesWF e) (c : Conf) (u : Upstream) (q : Query) :
     C01.specOK e c u q (handle e c u q) = true := by
   unfold C01.specOK C01.check handle
   cases hres : reserved c q
   · rw [shortCircuit_none c q hres]
     simp only [Bool.false_eq_true, if_false]
-    cases hb : blockedByRules e c q
+    cases hpre : precededByOther e c q
     · simp only [Bool.false_eq_true, if_false]
-      cases hs : serviceMayBlock e c q
-      · obtain ⟨h1, h2, h3⟩ := handleMain_forward e hwf c u q hb hs
-        cases happ : respFilterApplies e c q
-        · obtain ⟨ql, hql, hnf, _⟩ := h1 happ
-          simp [hql, Upstream.exchange, deliveredUnchanged, hnf]
-        · cases hany : u.answer.any (offending e c)
-          · have hclean : ∀ rr ∈ u.answer, offending e c rr = false := by
-              intro rr hrr
-              cases ho : offending e c rr
-              · rfl
-              · have : u.answer.any (offending e c) = true := List.any_eq_true.mpr ⟨rr, hrr, ho⟩
-                rw [hany] at this; cases this
-            obtain ⟨ql, hql, hnf, _⟩ := h2 happ hclean
-            simp only [hql, Upstream.exchange]
-            cases hd : c.aaaaDisabled <;>
-              simp [hany, deliveredUnchanged, hd, hnf, stripC, eraseAll]
-          · -- some record is offending: C02's business, but still forwarded exactly once
-            obtain ⟨rr, hrr, ho⟩ := List.any_eq_true.mp hany
-            have hfind : ∃ x, u.answer.find? (offending e c) = some x := by
-              cases hf : u.answer.find? (offending e c) with
-              | some x => exact ⟨x, rfl⟩
-              | none =>
-                have := List.find?_eq_none.mp hf rr hrr
-                simp [ho] at this
-            obtain ⟨x, hx⟩ := hfind
-            obtain ⟨pre, post, hsplit, hpre, hox⟩ := find_split _ _ _ hx
-            rw [offending_eq] at hox
-            cases hfb : firstBlocked e c x with
-            | none => simp [hfb] at hox
-            | some ht =>
-              obtain ⟨r, _, hr⟩ := h3 happ pre x post ht.1 ht.2 hsplit hpre hfb
-              have hqn := genDNSFilterMessage_question c q r
-              simp [hr, hqn.1, hqn.2, hany]
-      · obtain ⟨res, hh, hips⟩ := handleMain_serviceOnly e hwf c u q hb hs
-        have hsyn := genDNSFilterMessage_synthetic c q res (by simp [hips]) (by simp [hips])
+      cases hb : blockedByRules e c q
+      · simp only [Bool.false_eq_true, if_false]
+        cases hs : serviceMayBlock e c q
+        · cases hob : otherBlocks e c q
+          · obtain ⟨h1, h2, h3⟩ := handleMain_forward e hwf c u q hpre hb hs hob
+            cases happ : respFilterApplies e c q
+            · obtain ⟨ql, hql, hnf, _⟩ := h1 happ
+              simp [hql, Upstream.exchange, deliveredUnchanged, hnf]
+            · cases hany : u.answer.any (offending e c)
+              · have hclean : ∀ rr ∈ u.answer, offending e c rr = false := by
+                  intro rr hrr
+                  cases ho : offending e c rr
+                  · rfl
+                  · have : u.answer.any (offending e c) = true := List.any_eq_true.mpr ⟨rr, hrr, ho⟩
+                    rw [hany] at this; cases this
+                obtain ⟨ql, hql, hnf, _⟩ := h2 happ hclean
+                simp only [hql, Upstream.exchange]
+                cases hd : c.aaaaDisabled <;>
+                  simp [hany, deliveredUnchanged, hd, hnf, stripC, eraseAll]
+              · -- some record is offending: C02's business, but still forwarded exactly once
+                obtain ⟨rr, hrr, ho⟩ := List.any_eq_true.mp hany
+                have hfind : ∃ x, u.answer.find? (offending e c) = some x := by
+                  cases hf : u.answer.find? (offending e c) with
+                  | some x => exact ⟨x, rfl⟩
+                  | none =>
+                    have := List.find?_eq_none.mp hf rr hrr
+                    simp [ho] at this
+                obtain ⟨x, hx⟩ := hfind
+                obtain ⟨pre, post, hsplit, hpre', hox⟩ := find_split _ _ _ hx
+                rw [offending_eq] at hox
+                cases hfb : firstBlocked e c x with
+                | none => simp [hfb] at hox
+                | some ht =>
+                  obtain ⟨r, _, hr⟩ := h3 happ pre x post ht.1 ht.2 hsplit hpre' hfb
+                  have hqn := genDNSFilterMessage_question c q r
+                  simp [hr, hqn.1, hqn.2, hany]
+          · -- safe browsing / parental: no claim, but the model does answer
+            obtain ⟨res, _, hh⟩ := handleMain_otherBlocks e hwf c u q hpre hb hs hob
+            simp [hh]
+        · obtain ⟨res, hh, hips⟩ := handleMain_serviceOnly e hwf c u q hb hs
+          have hsyn := genDNSFilterMessage_synthetic c q res (by simp [hips]) (by simp [hips])
+          rw [hips] at hsyn
+          simp [hh, hsyn]
+      · obtain ⟨res, hh, hreason, hips⟩ := handleMain_blocked e hwf c u q hb
+        have hfam := hostRuleIPs_family e hwf c (qhost q) q.qtype
+        have hsyn := genDNSFilterMessage_synthetic c q res (by rw [hips]; exact hfam.1) (by rw [hips]; exact hfam.2)
         rw [hips] at hsyn
-        simp [hh, hsyn]
-    · obtain ⟨res, hh, hreason, hips⟩ := handleMain_blocked e hwf c u q hb
-      have hfam := hostRuleIPs_family e hwf c (qhost q) q.qtype
-      have hsyn := genDNSFilterMessage_synthetic c q res (by rw [hips]; exact hfam.1) (by rw [hips]; exact hfam.2)
-      rw [hips] at hsyn
-      simp only [hh, if_true, List.isEmpty_nil, Bool.not_true, Bool.false_eq_true, if_false, hsyn]
-      rcases hreason with h | h <;> simp [h]
+        simp only [hh, if_true, List.isEmpty_nil, Bool.not_true, Bool.false_eq_true, if_false, hsyn]
+        rcases hreason with h | h <;> simp [h]
+    · simp
   · simp
 
 /-- **Blocked ⇒ answered locally, never forwarded.**  With protection and
-filtering on, a name that matches a blocking rule / hosts-style line / blocked
-service and no allow rule gets the blocking mode's synthetic response, the
-upstream is not contacted at all, and the query-log record says "filtered". -/
+filtering on, a name that no legacy rewrite / hosts entry answers first
+(`blockedByRules` says so explicitly) and that matches a blocking rule /
+hosts-style line / blocked service and no allow rule gets the blocking mode's
+synthetic response, the upstream is not contacted at all, and the query-log
+record says "filtered". -/
 theorem C01_blocked_not_forwarded (e : Engines) (hwf : EnginesWF e) (c : Conf) (u : Upstream) (q : Query)
     (hdom : reserved c q = false) (hb : blockedByRules e c q = true) :
     ∃ m ql, handle e c u q = .done m [] (some ql) ∧
@@ -96,19 +106,12 @@ whatever the upstream would have answered. -/
 theorem C01_blocked_independent_of_upstream (e : Engines) (hwf : EnginesWF e) (c : Conf)
     (u u' : Upstream) (q : Query) (hdom : reserved c q = false) (hb : blockedByRules e c q = true) :
     handle e c u q = handle e c u' q := by
-  obtain ⟨res, hh, _, _⟩ := handleMain_blocked e hwf c u q hb
-  obtain ⟨res', hh', _, _⟩ := handleMain_blocked e hwf c u' q hb
-  have hck : ∀ u, ∃ r, checkHost e (trimDot q.name) q.qtype (settings c) = .ok r ∧ r.isFiltered = true ∧
-      handleMain e c u q = .done (genDNSFilterMessage c q r) []
-        (some { reason := r.reason, isFiltered := true, svcName := r.svcName, origAnswer := none }) := by
-    intro u
-    obtain ⟨r, hr, h1, _, _⟩ := checkHost_spec e hwf c q
-    exact ⟨r, hr, (h1 hb).1, by simp [handleMain, hr, (h1 hb).1]⟩
-  obtain ⟨r1, hr1, _, h1⟩ := hck u
-  obtain ⟨r2, hr2, _, h2⟩ := hck u'
-  have : r1 = r2 := by rw [hr1] at hr2; cases hr2; rfl
-  subst this
-  unfold handle; rw [shortCircuit_none c q hdom, h1, h2]
+  have hpre := notPreceded_of_blocked e c q hb
+  obtain ⟨r, hr, h1, _, _, _⟩ := checkHost_spec e hwf c q hpre
+  obtain ⟨hf, hreason, _⟩ := h1 hb
+  unfold handle
+  rw [shortCircuit_none c q hdom, handleMain_of_ruleBlock e c u q r hr hf hreason,
+    handleMain_of_ruleBlock e c u' q r hr hf hreason]
 
 /-- **The blocking-mode table** (5 modes × A / AAAA / HTTPS / other): the
 response generated for a filtered result is the one the mode prescribes. -/
@@ -118,34 +121,39 @@ theorem C01_mode_table (c : Conf) (q : Query) (res : Result)
     syntheticOK c q res.ips (genDNSFilterMessage c q res) = true :=
   genDNSFilterMessage_synthetic c q res hA hAAAA
 
-/-- **Allowed ⇒ forwarded intact.**  A name matched by an allow rule is sent
-upstream exactly once and the upstream's message is delivered as is (same
-question, rcode and records), whatever the block lists and services say. -/
+/-- **Allowed ⇒ forwarded intact.**  A name (not answered first by a legacy
+rewrite or the hosts container) matched by an allow rule is sent upstream
+exactly once and the upstream's message is delivered as is, whatever the block
+lists, services, safe browsing and parental say. -/
 theorem C01_allow_forwarded (e : Engines) (hwf : EnginesWF e) (c : Conf) (u : Upstream) (q : Query)
-    (hdom : reserved c q = false) (_hp : protectionOn c = true) (hf : filteringOn c = true)
+    (hdom : reserved c q = false) (hpre : precededByOther e c q = false)
+    (_hp : protectionOn c = true) (hf : filteringOn c = true)
     (ha : allowedName e c (qhost q) q.qtype = true) :
     ∃ ql, handle e c u q = .done (u.exchange q) [q] (some ql) ∧ ql.isFiltered = false := by
   have hb : blockedByRules e c q = false := by
     simp [blockedByRules, ruleBlockedName, serviceBlockedName, ha]
   have hs : serviceMayBlock e c q = false := by simp [serviceMayBlock, hf]
+  have hob : otherBlocks e c q = false := by simp [otherBlocks, hf, ha]
   have happ : respFilterApplies e c q = false := by simp [respFilterApplies, ha]
-  obtain ⟨ql, hql, hnf, _⟩ := (handleMain_forward e hwf c u q hb hs).1 happ
+  obtain ⟨ql, hql, hnf, _⟩ := (handleMain_forward e hwf c u q hpre hb hs hob).1 happ
   exact ⟨ql, by unfold handle; rw [shortCircuit_none c q hdom, hql], hnf⟩
 
-/-- **No match ⇒ forwarded intact.**  A name that is not blocked is sent
-upstream exactly once; if no answer record reveals a blocked name (C02) the
-upstream's message is delivered with the original question, rcode and records.
-The one edit the code makes: where response filtering runs and AAAA is
-disabled, HTTPS records lose their IPv6 hints. -/
+/-- **No match ⇒ forwarded intact.**  A name that nothing answers or blocks
+(no rewrite / hosts entry, no rule or service block, no safe-browsing /
+parental verdict) is sent upstream exactly once; if no answer record reveals a
+blocked name (C02) the upstream's message is delivered with the original
+question, rcode and records.  The one edit the code makes: where response
+filtering runs and AAAA is disabled, HTTPS records lose their IPv6 hints. -/
 theorem C01_nomatch_forwarded (e : Engines) (hwf : EnginesWF e) (c : Conf) (u : Upstream) (q : Query)
-    (hdom : reserved c q = false) (hb : blockedByRules e c q = false) (hs : serviceMayBlock e c q = false)
+    (hdom : reserved c q = false) (hpre : precededByOther e c q = false)
+    (hb : blockedByRules e c q = false) (hs : serviceMayBlock e c q = false) (hob : otherBlocks e c q = false)
     (hclean : ∀ rr ∈ u.answer, offending e c rr = false) :
     ∃ ql, ql.isFiltered = false ∧
       handle e c u q =
         .done { u.exchange q with
                 answer := if respFilterApplies e c q && c.aaaaDisabled then u.answer.map stripRR else u.answer }
           [q] (some ql) := by
-  obtain ⟨h1, h2, _⟩ := handleMain_forward e hwf c u q hb hs
+  obtain ⟨h1, h2, _⟩ := handleMain_forward e hwf c u q hpre hb hs hob
   cases happ : respFilterApplies e c q
   · obtain ⟨ql, hql, hnf, _⟩ := h1 happ
     refine ⟨ql, hnf, ?_⟩
@@ -162,58 +170,97 @@ theorem C01_nomatch_forwarded (e : Engines) (hwf : EnginesWF e) (c : Conf) (u : 
 
 /-- The common case of the previous theorem: AAAA enabled ⇒ literally the upstream's message. -/
 theorem C01_nomatch_forwarded_exact (e : Engines) (hwf : EnginesWF e) (c : Conf) (u : Upstream) (q : Query)
-    (hdom : reserved c q = false) (hb : blockedByRules e c q = false) (hs : serviceMayBlock e c q = false)
+    (hdom : reserved c q = false) (hpre : precededByOther e c q = false)
+    (hb : blockedByRules e c q = false) (hs : serviceMayBlock e c q = false) (hob : otherBlocks e c q = false)
     (hclean : ∀ rr ∈ u.answer, offending e c rr = false) (hd : c.aaaaDisabled = false) :
     ∃ ql, ql.isFiltered = false ∧ handle e c u q = .done (u.exchange q) [q] (some ql) := by
-  obtain ⟨ql, hnf, h⟩ := C01_nomatch_forwarded e hwf c u q hdom hb hs hclean
+  obtain ⟨ql, hnf, h⟩ := C01_nomatch_forwarded e hwf c u q hdom hpre hb hs hob hclean
   refine ⟨ql, hnf, ?_⟩
   rw [h]; simp [hd, Upstream.exchange]
 
-/-- **Protection off ⇒ nothing is blocked**: whatever the rules, services and
-flags, the query is forwarded once and the upstream's message delivered untouched. -/
+/-- **Protection off ⇒ nothing is blocked**: whatever the rules, services,
+safe browsing and parental say, a query that no legacy rewrite / hosts entry
+answers (those are not blocks and do not depend on protection) is forwarded
+once and the upstream's message delivered untouched. -/
 theorem C01_protection_off (e : Engines) (hwf : EnginesWF e) (c : Conf) (u : Upstream) (q : Query)
-    (hdom : reserved c q = false) (hp : protectionOn c = false) :
+    (hdom : reserved c q = false) (hpre : precededByOther e c q = false) (hp : protectionOn c = false) :
     ∃ ql, ql.isFiltered = false ∧ handle e c u q = .done (u.exchange q) [q] (some ql) := by
   have hb : blockedByRules e c q = false := by simp [blockedByRules, hp]
   have hs : serviceMayBlock e c q = false := by simp [serviceMayBlock, hp]
+  have hob : otherBlocks e c q = false := by simp [otherBlocks, hp]
   have happ : respFilterApplies e c q = false := by simp [respFilterApplies, hp]
-  obtain ⟨ql, hql, hnf, _⟩ := (handleMain_forward e hwf c u q hb hs).1 happ
+  obtain ⟨ql, hql, hnf, _⟩ := (handleMain_forward e hwf c u q hpre hb hs hob).1 happ
   exact ⟨ql, hnf, by unfold handle; rw [shortCircuit_none c q hdom, hql]⟩
 
+/-- … and with protection off nothing is ever recorded as filtered, rewrites and hosts included. -/
+theorem C01_protection_off_never_filtered (e : Engines) (c : Conf) (q : Query)
+    (hp : protectionOn c = false) (res : Result)
+    (h : checkHost e c (trimDot q.name) q.qtype (settings c) = .ok res) : res.isFiltered = false := by
+  have hoff : (protectionOn c && filteringOn c) = false := by simp [hp]
+  unfold checkHost at h
+  split at h
+  · cases h; rfl
+  · dsimp only at h
+    split at h
+    · cases h
+      rename_i hr
+      split at hr
+      · unfold rewriteResult at hr ⊢; split <;> rfl
+      · rfl
+    · split at h
+      · cases h
+        unfold matchSysHosts
+        repeat' split
+        all_goals rfl
+      · rw [matchHost_off e c _ _ hoff] at h
+        simp only [ne_eq, not_true_eq_false, if_false] at h
+        cases h
+        rw [checkAfterRules_eq]
+        simp [hp]
+
 /-- **Filtering off for the client ⇒ not subject to rule lists**: the outcome
-does not depend on the block and allow engines at all (only blocked services,
-which are not rule lists, can still act). -/
+does not depend on the block and allow engines at all, nor on the rewrite table's
+sort or the hosts container's reverse lookups (only blocked services, safe
+browsing and parental, which are not rule lists, can still act). -/
 theorem C01_client_filtering_off (e e' : Engines) (c : Conf) (u : Upstream) (q : Query)
-    (hf : filteringOn c = false) (hsvc : e.svc = e'.svc) :
+    (hf : filteringOn c = false) (hsvc : e.svc = e'.svc) (hsb : e.sb = e'.sb) (hpa : e.parental = e'.parental) :
     handle e c u q = handle e' c u q := by
   have hoff : (protectionOn c && filteringOn c) = false := by simp [hf]
   have hfs : (settings c).filtering = false := by rw [settings_filtering, hf]
-  have hck : checkHost e (trimDot q.name) q.qtype (settings c) = checkHost e' (trimDot q.name) q.qtype (settings c) := by
+  have hck : checkHost e c (trimDot q.name) q.qtype (settings c) =
+      checkHost e' c (trimDot q.name) q.qtype (settings c) := by
     unfold checkHost
     split
     · rfl
     · dsimp only
-      rw [matchHost_off e c _ _ hoff, matchHost_off e' c _ _ hoff]
-      unfold matchBlockedServices
-      rw [hsvc]
+      have hs1 : ∀ e0 : Engines, matchSysHosts e0 c (lower (trimDot q.name)) q.qtype (settings c) = {} := by
+        intro e0; unfold matchSysHosts; simp [hfs]
+      rw [hfs, hs1 e, hs1 e', matchHost_off e c _ _ hoff, matchHost_off e' c _ _ hoff]
+      unfold checkAfterRules matchBlockedServices checkSafeBrowsing checkParental
+      rw [hsvc, hsb, hpa]
   unfold handle handleMain
-  dsimp only
   rw [hck]
   cases shortCircuit c q with
   | some o => rfl
   | none =>
     dsimp only
-    cases checkHost e' (trimDot q.name) q.qtype (settings c) with
+    cases checkHost e' c (trimDot q.name) q.qtype (settings c) with
     | error f => rfl
-    | ok res => simp [hfs]
+    | ok res =>
+      dsimp only
+      unfold forwardStage
+      simp [hfs]
 
-/-- … and with filtering off and no blocked service in force matching, the query is simply forwarded. -/
+/-- … and with filtering off and neither a blocked service in force nor safe
+browsing / parental matching, the query is simply forwarded. -/
 theorem C01_client_filtering_off_forwarded (e : Engines) (hwf : EnginesWF e) (c : Conf) (u : Upstream) (q : Query)
-    (hdom : reserved c q = false) (hf : filteringOn c = false) (hs : serviceMayBlock e c q = false) :
+    (hdom : reserved c q = false) (hf : filteringOn c = false) (hs : serviceMayBlock e c q = false)
+    (hob : otherBlocks e c q = false) :
     ∃ ql, ql.isFiltered = false ∧ handle e c u q = .done (u.exchange q) [q] (some ql) := by
   have hb : blockedByRules e c q = false := by simp [blockedByRules, hf]
   have happ : respFilterApplies e c q = false := by simp [respFilterApplies, hf]
-  obtain ⟨ql, hql, hnf, _⟩ := (handleMain_forward e hwf c u q hb hs).1 happ
+  obtain ⟨ql, hql, hnf, _⟩ :=
+    (handleMain_forward e hwf c u q (notPreceded_of_filtOff e c q hf) hb hs hob).1 happ
   exact ⟨ql, hnf, by unfold handle; rw [shortCircuit_none c q hdom, hql]⟩
 
 /-- **The allow engine is consulted first**: any match there (even a
@@ -231,12 +278,125 @@ theorem C01_allow_engine_first (e : Engines) (hwf : EnginesWF e) (c : Conf) (h :
     have := hwf.allow_hosts _ _ _ ha
     simp [processAllowList, this]
 
-/-- An `@@` exception among block lists / custom rules outranks blocked services. -/
+/-- An `@@` exception among block lists / custom rules outranks blocked
+services (and safe browsing / parental). -/
 theorem C01_exception_beats_service (e : Engines) (hwf : EnginesWF e) (c : Conf) (u : Upstream) (q : Query)
-    (hdom : reserved c q = false) (hp : protectionOn c = true) (hf : filteringOn c = true)
+    (hdom : reserved c q = false) (hpre : precededByOther e c q = false)
+    (hp : protectionOn c = true) (hf : filteringOn c = true)
     (hx : e.block (reqFor c (qhost q) q.qtype) = some (.net true)) :
     ∃ ql, handle e c u q = .done (u.exchange q) [q] (some ql) ∧ ql.isFiltered = false :=
-  C01_allow_forwarded e hwf c u q hdom hp hf (by simp [allowedName, hx])
+  C01_allow_forwarded e hwf c u q hdom hpre hp hf (by simp [allowedName, hx])
+
+/-- **A legacy rewrite precedes every block.**  With filtering on for the
+client, a name to which a legacy rewrite applies is answered by the rewrite —
+the canonical name resolved upstream and the CNAME prepended, or the rewrite's
+addresses served locally — and the outcome does not depend on the allow / block
+engines, the services, safe browsing, parental or the hosts container at all:
+a blocking rule for the same name is never consulted, and neither the canonical
+name nor the records the upstream returns for it are checked against the rules. -/
+theorem C01_rewrite_precedes_block (e : Engines) (c : Conf) (u : Upstream) (q : Query)
+    (hdom : reserved c q = false) (hf : filteringOn c = true) (hq : qhost q ≠ [])
+    (hrw : legacyRewritten e c (qhost q) q.qtype = true) :
+    handle e c u q =
+      if rewriteCanon e c q ≠ [] ∧ rewriteIPs e c q = [] then
+        .done { u.exchange { q with name := fqdn (rewriteCanon e c q) } with
+                qname := q.name,
+                answer := { name := q.name, ttl := c.ttl, data := .cname (fqdn (rewriteCanon e c q)) } ::
+                  (u.exchange { q with name := fqdn (rewriteCanon e c q) }).answer }
+          [{ q with name := fqdn (rewriteCanon e c q) }]
+          (some { reason := .rewritten, isFiltered := false, svcName := [], origAnswer := none })
+      else
+        .done (cnameWithIPs c q (rewriteIPs e c q) (rewriteCanon e c q)) []
+          (some { reason := .rewritten, isFiltered := false, svcName := [], origAnswer := none }) := by
+  unfold handle
+  rw [shortCircuit_none c q hdom, handleMain_rewritten e c u q hf hq hrw]
+
+/-- Corollary: two systems that differ only in rule lists, services and
+safe-browsing / parental / hosts verdicts treat a rewritten name identically. -/
+theorem C01_rewrite_independent_of_rules (e e' : Engines) (c : Conf) (u : Upstream) (q : Query)
+    (hdom : reserved c q = false) (hf : filteringOn c = true) (hq : qhost q ≠ [])
+    (hsrt : e.srt = e'.srt) (hrw : legacyRewritten e c (qhost q) q.qtype = true) :
+    handle e c u q = handle e' c u q := by
+  have hrw' : legacyRewritten e' c (qhost q) q.qtype = true := by
+    unfold legacyRewritten at hrw ⊢; rw [← hsrt]; exact hrw
+  rw [C01_rewrite_precedes_block e c u q hdom hf hq hrw, C01_rewrite_precedes_block e' c u q hdom hf hq hrw']
+  simp only [rewriteCanon, rewriteIPs, hsrt]
+
+/-- The hosts container answers before the rule engines as well (A / AAAA / PTR
+it knows), protection on or off. -/
+theorem C01_hosts_precede_block (e : Engines) (c : Conf) (u : Upstream) (q : Query)
+    (hdom : reserved c q = false) (hf : filteringOn c = true) (hq : qhost q ≠ [])
+    (hrw : legacyRewritten e c (qhost q) q.qtype = false)
+    (hk : hostsKnows e c (qhost q) q.qtype = true) :
+    ∃ vals, handle e c u q = .done (hostsResponse c q vals) []
+      (some { reason := .autoHosts, isFiltered := false, svcName := [], origAnswer := none }) := by
+  have hh : trimDot q.name ≠ [] := by
+    intro h; apply hq; unfold qhost; rw [h]; rfl
+  have hqh : lower (trimDot q.name) = qhost q := rfl
+  -- the container's answer is a hit
+  have hhit : (matchSysHosts e c (qhost q) q.qtype (settings c)).reason = .autoHosts ∧
+      (matchSysHosts e c (qhost q) q.qtype (settings c)).isFiltered = false := by
+    by_cases hs : (matchSysHosts e c (qhost q) q.qtype (settings c)).reason = .notFound
+    · -- impossible: a silent container does not know the question
+      exfalso
+      unfold matchSysHosts at hs
+      unfold hostsKnows at hk
+      rw [settings_filtering, hf] at hs
+      simp only [Bool.not_true, Bool.false_eq_true, if_false] at hs
+      by_cases hqa : q.qtype = tA ∨ q.qtype = tAAAA
+      · rw [if_pos hqa] at hs
+        have hne : q.qtype ≠ tPTR := by rcases hqa with h | h <;> rw [h] <;> decide
+        have hk1 : c.hosts.any (fun r => r.names.any (fun n => lower n == qhost q)) = true := by
+          have : (q.qtype == tPTR) = false := by simp [hne]
+          simp only [this, Bool.false_and, Bool.or_false, Bool.and_eq_true] at hk
+          exact hk.2
+        obtain ⟨r, hr, hrn⟩ := List.any_eq_true.mp hk1
+        have hmem : r.addr ∈ (c.hosts.filter (fun r => r.names.any (fun n => lower n == qhost q))).map (·.addr) :=
+          List.mem_map.mpr ⟨r, List.mem_filter.mpr ⟨hr, hrn⟩, rfl⟩
+        have hemp : (hostsByName c.hosts (qhost q)).isEmpty = false := by
+          unfold hostsByName
+          rw [dedupIPs_isEmpty]
+          cases hl : (c.hosts.filter (fun r => r.names.any (fun n => lower n == qhost q))).map (·.addr) with
+          | nil => rw [hl] at hmem; cases hmem
+          | cons _ _ => rfl
+        simp [hemp] at hs
+      · rw [if_neg hqa] at hs
+        have hqa' : (q.qtype == tA || q.qtype == tAAAA) = false := by
+          simp only [not_or] at hqa; simp [hqa.1, hqa.2]
+        simp only [hqa', Bool.false_and, Bool.false_or, Bool.and_eq_true, beq_iff_eq] at hk
+        rw [if_pos hk.1] at hs
+        cases ha : e.arpa (qhost q) with
+        | none => simp [ha] at hk
+        | some a =>
+          rw [ha] at hs
+          simp only [ha] at hk
+          obtain ⟨r, hr, hrn⟩ := List.any_eq_true.mp hk.2
+          simp only [Bool.and_eq_true, Bool.not_eq_true'] at hrn
+          have hemp : (hostsByAddr c.hosts a).isEmpty = false := by
+            unfold hostsByAddr
+            rw [dedupNames_isEmpty]
+            cases hn : r.names with
+            | nil => simp [hn] at hrn
+            | cons n ns =>
+              have : n ∈ (c.hosts.filter (fun r => r.addr.same a)).flatMap (·.names) :=
+                List.mem_flatMap.mpr ⟨r, List.mem_filter.mpr ⟨hr, hrn.1⟩, by rw [hn]; exact List.mem_cons_self⟩
+              cases hl : (c.hosts.filter (fun r => r.addr.same a)).flatMap (·.names) with
+              | nil => rw [hl] at this; cases this
+              | cons _ _ => rfl
+          simp [hemp] at hs
+    · unfold matchSysHosts at hs ⊢
+      repeat' split at hs
+      all_goals first | (exact absurd rfl hs) | skip
+      all_goals (repeat' split) <;> first | (exact ⟨rfl, rfl⟩) | (exact absurd rfl hs) | skip
+  refine ⟨(matchSysHosts e c (qhost q) q.qtype (settings c)).hostVals, ?_⟩
+  unfold handle
+  rw [shortCircuit_none c q hdom]
+  unfold handleMain checkHost
+  simp only [hh, if_false]
+  rw [hqh, settings_filtering, hf]
+  have hrr : (rewriteResult e c (qhost q) q.qtype).reason ≠ .rewritten := by
+    unfold rewriteResult; unfold legacyRewritten at hrw; simp [hrw]
+  simp [hrr, hhit.1, hhit.2]
 
 /-! ## Non-vacuity -/
 
